@@ -313,26 +313,35 @@ func (c *Container) skip(n int) {
 
 // GetNextBlock returns the next block of data defined by a varint. Data MAY be copied and IS consumed.
 func (c *Container) GetNextBlock() ([]byte, error) {
-	blockSize, err := c.GetNextN64()
+	blockSize, err := c.getNextBlockSize()
 	if err != nil {
 		return nil, err
 	}
-	if blockSize > uint64(c.Length()) {
-		return nil, errors.New("container: not enough data to return")
+	return c.Get(blockSize)
+}
+
+// getNextBlockSize parses and consumes the length prefix of the next block.
+// Nothing is consumed if the prefix is invalid or the block is not fully there.
+func (c *Container) getNextBlockSize() (int, error) {
+	buf := c.Peek(10)
+	blockSize, n, err := varint.Unpack64(buf)
+	if err != nil {
+		return 0, err
 	}
-	return c.Get(int(blockSize))
+	if blockSize > uint64(c.Length()-n) {
+		return 0, errors.New("container: not enough data to return")
+	}
+	c.skip(n)
+	return int(blockSize), nil
 }
 
 // GetNextBlockAsContainer returns the next block of data as a Container defined by a varint. Data will NOT be copied and IS consumed.
 func (c *Container) GetNextBlockAsContainer() (*Container, error) {
-	blockSize, err := c.GetNextN64()
+	blockSize, err := c.getNextBlockSize()
 	if err != nil {
 		return nil, err
 	}
-	if blockSize > uint64(c.Length()) {
-		return nil, errors.New("container: not enough data to return")
-	}
-	return c.GetAsContainer(int(blockSize))
+	return c.GetAsContainer(blockSize)
 }
 
 // GetNextN8 parses and returns a varint of type uint8.
